@@ -5,9 +5,11 @@ CFG = dict(
           "the client-to-server protocol automaton proto_c2s of Model/Protocol.v (one request for a unary call; open, bodies, at most one trailer "
           "with status, at most one reset, reset last; constant id and route), for every stream the client did not itself abort on undecodable "
           "response metadata; C06_client_refuted shows that the exclusion is necessary (trailer after reset; replayed on the real client, finding "
-          "close-after-abort-reset). The client model is tied lock-step to the real client on every run (all orders of internal rules) and the "
+          "close-after-abort-reset). Server half, partial: C06_server_origin (every envelope the server model writes carries the id and method of an "
+          "envelope it has read, with source and destination exchanged); the per-id acceptance by proto_s2c, trailer presence and reset order of "
+          "the SERVER are checked on the real server by the monitor only. The client model is tied lock-step to the real client on every run (all orders of internal rules) and the "
           "automata judge every per-id per-direction projection of every wire history of the rigs (real client, real server, end to end).",
-    props="Props/C06.v", theorems=["C06_client", "C06_client_refuted"],
+    props="Props/C06.v", theorems=["C06_client", "C06_client_refuted", "C06_server_origin"],
     imports=["Model.Client", "Check.ClientC", "Model.Protocol", "Check.CwC", "Check.C06c"],
     case_type="cwcase", find_bad_from="find_bad_from", go_tags="cw",
     rigs=[dict(test="TestC06", timeout_quick=600, timeout_thorough=2400)],
